@@ -162,7 +162,7 @@ def tlc_mc(ctx, name, module, consts, invariants=(), properties=(), view=None, c
     stage_specs(d)
     cfgp = os.path.join(d, name + '.cfg')
     open(cfgp, 'w').write(cfg_text(spec, consts, invariants, properties, view, constraints, action_constraints,
-                                   symmetry=symmetry))
+                                   symmetry=symmetry, init=None if spec else 'SInit', next_=None if spec else 'SNext'))
     cmd = 'cd %s && JAVA_TOOL_OPTIONS=-Xmx%s timeout %d tlc' % (d, heap, tmo)
     cmd += ' -workers %d -metadir %s/md -coverage 1' % (workers, d)
     if simulate:
